@@ -1,29 +1,40 @@
 SPEC = {
     "id": "C18",
     "level": "proof",
-    "theorem_modules": ["GluonModel.Theorems.C18"],
-    # unit-level tie for the not-authenticated state only: the real Session.handleCommand / handleIdle on a
+    "theorem_modules": ["GluonModel.Theorems.C18", "GluonModel.Theorems.C18Wire"],
+    # unit-level tie for the not-authenticated state: the real Session.handleCommand / handleIdle on a
     # session with s.state == nil (hook verifhooks.DispatchUnauth) for every payload type, against the
-    # facts-driven model.  Authenticated / selected behaviour, users and jail timing: the lead's wire oracle.
+    # facts-driven model.  Every other state, users, effects and jail timing: the wire oracle below.
     "correspondences": [
         {"dialect": "dispatch", "quick_n": 64, "thorough_n": 64, "judge": "judge-c18-dispatch"}  # finite input space: every payload type once,
     ],
     "oracles": [
-        # (lead) wire oracle: all commands x all protocol states, 2-3 users, credential pairs, jail timing
+        # wire oracle (harness/o_auth.go, Lean judge Driver/DJudgeAuth.lean `judge-c18-wire`): whole servers with 2-3 users
+        # (own connector / credentials / marker content each), generated command sequences over 2-5 interleaved
+        # connections covering every payload type in every protocol state (not authenticated, after a failed LOGIN,
+        # authenticated, selected, after CLOSE/UNSELECT, after LOGOUT / dropped), credential pairs (right, wrong password,
+        # unknown user, other user's password, other user's name, changed case), login jail of 300 ms.
+        # Gluon.Auth.step with the regenerated facts predicts completion class and state of every step;
+        # Gluon.Auth.attempt bounds reply times from below and predicts the "too many login attempts" replies exactly;
+        # views of all users through fresh sessions before/after.  stats: pair.<state>.<type> = times exercised.
+        {"name": "c18auth", "quick_args": ["-n", "100"], "thorough_args": ["-n", "2000"], "timeout": 2400},
     ],
     "trusted_base": [
         "Lean 4.33.0 kernel; axioms limited to propext, Classical.choice, Quot.sound (audited per theorem)",
         "facts translator harness/facts_dispatch.go (go/ast): handleCommand's type switch -> class table, second-level switches, serve-loop / command-reader / IDLE special cases, the `s.state == nil` guards, State.Selected's guard, nil-safety of the any-state handlers, shape of handleLogin / Backend.GetState / Backend.getUserID, maxLoginAttempts -> Generated/Facts/Dispatch.lean (regenerated on every run; unknown shapes are emitted as unknown and fail dispatch_conforms)",
-        "hand-written model GluonModel/Model/Auth.lean (session protocol state machine driven by those facts; login counter and jail with abstract time); tied to the real dispatch only for the not-authenticated state (dialect `dispatch`: real handleCommand/handleIdle with s.state == nil on every payload type); everything else awaits the wire-level oracle",
+        "hand-written model GluonModel/Model/Auth.lean (session protocol state machine driven by those facts; login counter and jail with abstract time); tied to the real dispatch at unit level for the not-authenticated state (dialect `dispatch`) and at wire level for all states by the oracle `c18auth` (differential testing against whole servers, not proof)",
+        "wire harness harness/o_auth.go: classification of a reply into ok/no/bad/bye/byeonly/none, marker scan of untagged data, the credential table (which connector accepts which pair: the rule of connector.Dummy.Authorize), client-side monotonic clock for send/receive times, view snapshots (LIST, LSUB, STATUS, EXAMINE + FETCH 1:* (UID FLAGS BODY.PEEK[HEADER.FIELDS (Subject)])); Lean judge GluonModel/Driver/DJudgeAuth.lean",
         "verif hook internal/session/verif_export_dispatch.go + verifhooks/session.go (builds a Session without backend/state and calls the real handleCommand / handleIdle)",
         "specification table GluonModel/Spec/AuthSpec.lean: which command RFC 3501 / 2971 / 2177 / 3691 / 4315 / 6851 allow in which state",
     ],
     "assumptions": [
-        "the effect of a handled command is an arbitrary function of the command and the authenticated user's own data only (each user has its own database, store and connector: backend.newUser) - typing of the model, not checked",
+        "the effect of a handled command is an arbitrary function of the command and the authenticated user's own data only (each user has its own database, store and connector: backend.newUser) - typing of the model; checked at wire level only as far as the oracle's before/after views of users without an authenticated session and the marker scan of every reply go",
         "a guard recognised by the translator (first statement after lock/defer/profiling prologue) refuses before any effect; handler bodies behind the guards are not inspected",
         "login counter model: loginLock serialises attempts, loginWG.Wait() returns when the armed timer has fired, time.AfterFunc fires no earlier than its duration (abstract time; arbitrary arrival times, Authorize durations and timer latencies)",
-        "jail is measured from the moment the third failure is decided inside the server (t3); a client-side oracle must measure from the time it SENT the third LOGIN (<= t3), not from the time it received the third NO",
-        "not modelled: BYE on an invalidated state, parse errors / maxSessionError (C11), TLS upgrade, response texts; AUTHENTICATE is not implemented by gluon",
+        "jail measured from the client: a command is handled after the client sent it and its reply is received after it was decided; with that, theorem earliest_schedule_lower_bound makes `reply to the next attempt received >= send time of the blocked attempt + jail` (1 ms tolerance for clock granularity) a consequence of the model for all server-side timings - a lower bound only, so machine load cannot raise an alarm; the counter itself (three in a row, reset by success and by the timer) is observed exactly through the reply text `too many login attempts`, with no upper time bound",
+        "where the model's prediction depends on Cmd.ok (a handler body runs: mailbox / message exists ...) the wire judge accepts OK and the failure classes NO and BAD (handlers answer BAD for `no such message`) and follows the observed outcome; in every gated position the class is exact",
+        "classified, not judged under C18: STARTTLS on a server without TLS configuration drops the connection without a tagged reply (C11); an untagged BYE without completion in the selected state (the selected mailbox was deleted: serve loop's IsValid check) - not modelled in Auth.step, the judge continues with the session closed",
+        "not modelled: parse errors / maxSessionError (C11), TLS upgrade, response texts; AUTHENTICATE is not implemented by gluon; a failed SELECT/EXAMINE of a missing mailbox leaves the previously selected mailbox selected in gluon (State.Select looks the name up before closing the snapshot) and the model does the same",
     ],
-    "explanation": "Lean theorems over the facts-driven session model: for every command sequence without an accepted LOGIN nothing changes and every mailbox/message command is answered NO (unauth_no_effect, by induction over sequences on top of a decide over the regenerated dispatch table and guards); message commands need a selected mailbox; wrong credentials never authenticate and an authenticated session cannot switch user; users are isolated over every interleaving of sessions; after three consecutive failures the next attempt is decided no earlier than t3 + jail; success resets the counter. What awaits the lead's wire oracle: that the running server behaves as this model (tagged results per state, other users' views unchanged, measured jail time).",
+    "explanation": "Lean theorems over the facts-driven session model: for every command sequence without an accepted LOGIN nothing changes and every mailbox/message command is answered NO (unauth_no_effect, by induction over sequences on top of a decide over the regenerated dispatch table and guards); message commands need a selected mailbox; wrong credentials never authenticate and an authenticated session cannot switch user; users are isolated over every interleaving of sessions; after three consecutive failures the next attempt is decided no earlier than t3 + jail; success resets the counter; the client-side jail measurement is a sound lower bound (earliest_schedule_lower_bound). Tie: the model is the oracle for whole servers on the wire - every payload type in every protocol state, several users and connections, all credential kinds, measured jail, views of every user before and after.",
 }
